@@ -29,6 +29,10 @@ func (a *abyss) OnInitialize(system *ActorSystem) {
 }
 
 func (a *abyss) DeliveryUserMessage(receiver, sender, forward *prc.ProcessId, message prc.Message) {
+	// 消息在投递时已被 prc.MessageWrapper 包装，需要以其内部消息进行判断
+	if wrapper, ok := message.(*prc.MessageWrapper); ok {
+		message = wrapper.Message
+	}
 	switch message.(type) {
 	case *OnAbyssMessageEvent, *messages.AbyssMessageEvent, *messages.LocalPublishRequest:
 		return
@@ -61,9 +65,13 @@ func (a *abyss) DeliveryUserMessage(receiver, sender, forward *prc.ProcessId, me
 }
 
 func (a *abyss) DeliverySystemMessage(receiver, sender, forward *prc.ProcessId, message prc.Message) {
+	// 消息在投递时已被 prc.MessageWrapper 包装，需要以其内部消息进行判断
+	if wrapper, ok := message.(*prc.MessageWrapper); ok {
+		message = wrapper.Message
+	}
 	switch message.(type) {
 	case *messages.Watch:
-		a.system.rc.GetProcess(sender).DeliverySystemMessage(sender, receiver, nil, &messages.Terminated{TerminatedProcess: receiver})
+		a.system.rc.GetProcess(sender).DeliverySystemMessage(sender, receiver, nil, prc.WrapMessage(receiver, sender, &messages.Terminated{TerminatedProcess: receiver}))
 	default:
 		a.system.Logger().Error("ActorSystem", log.String("info", "system abyss"), log.String("sender", sender.URL().String()), log.String("receiver", receiver.URL().String()), log.Any("message", message))
 	}
